@@ -6,7 +6,10 @@ package bank_test
 //   go test -count=1 -run 'TestPrecompileTestSuite/TestReplayK1' ./precompiles/bank/
 
 import (
+	"encoding/json"
+	"fmt"
 	"math/big"
+	"os"
 
 	"cosmossdk.io/math"
 	sdk "github.com/cosmos/cosmos-sdk/types"
@@ -15,7 +18,15 @@ import (
 	coinomicstypes "github.com/haqq-network/haqq/x/coinomics/types"
 )
 
-func (s *PrecompileTestSuite) TestReplayK1() {
+func (s *PrecompileTestSuite) TestVerifReplayBankQuery() {
+	raw, err0 := os.ReadFile(os.Getenv("VERIF_REPLAY_IN"))
+	if err0 != nil {
+		s.T().Skip("no replay request")
+	}
+	var req struct {
+		KnownIDs []string `json:"known_ids"`
+	}
+	s.Require().NoError(json.Unmarshal(raw, &req))
 	s.SetupTest()
 	ctx := s.network.GetContext()
 	voucher := "ibc/27394FB092D2ECCD56123C74F36E4C1F926001CEADA9CA97EA622B25F41E5EB2"
@@ -64,7 +75,18 @@ func (s *PrecompileTestSuite) TestReplayK1() {
 	out, err := s.precompile.Unpack(ms.Name, bz)
 	s.Require().NoError(err)
 	got := out[0].(*big.Int)
-	s.T().Logf("K1: balances()/totalSupply() list %s under %s with amount %s; supplyOf(%s) = %s", voucher, addr.Hex(), amt, addr.Hex(), got)
-	// ... but supplyOf reports 0 (finding K1). The property wants 777.
-	s.Require().Equal(int64(0), got.Int64(), "K1 reproduced: supplyOf reports 0 for a listed denomination")
+	res := map[string]interface{}{"verdict": "NOT-REPRODUCED", "cases": 1,
+		"bound": "one account holding 777 units of an IBC voucher that has no registered token pair: balances(), totalSupply() and supplyOf() of the bank precompile compared with the bank module"}
+	if got.Cmp(amt.BigInt()) != 0 {
+		res["verdict"] = "REPRODUCED"
+		res["input"] = map[string]string{"id": "K1", "denom": voucher, "address": addr.Hex()}
+		res["detail"] = fmt.Sprintf("balances() / totalSupply() list %s under %s with amount %s, but supplyOf(%s) = %s (bank supply %s)", voucher, addr.Hex(), amt, addr.Hex(), got, amt)
+		for _, k := range req.KnownIDs {
+			if k == "K1" {
+				res["known_id"] = "K1"
+			}
+		}
+	}
+	js, _ := json.MarshalIndent(res, "", " ")
+	s.Require().NoError(os.WriteFile(os.Getenv("VERIF_REPLAY_OUT"), js, 0o644))
 }
